@@ -3,6 +3,7 @@
    previous session id to be non-zero (finding F12), so exactness holds on F12-free histories and is
    refuted by a concrete witness otherwise. *)
 From PS Require Import Lib.Base Model.Session Spec.C07Spec Proofs.C07Proofs Generated.LogicGen Proofs.GenEquiv.
+From PS Require Import Model.StackTypes Model.Stack Model.Skel Proofs.GenSkel.
 
 (* what the code computes, for every history *)
 Theorem C07_exact_code : forall h, run_check sess_init h = spec_detect_code h.
@@ -35,6 +36,13 @@ Proof. split; reflexivity. Qed.
 Theorem C07_model_is_the_translated_source : forall s a mc f sid, gen_check_received s a mc f sid = check_received s a mc f sid.
 Proof. exact gen_check_received_eq. Qed.
 
+(* the fan-out of a detection is the control flow translated from the source text of sd.py on every run: the announcer at
+   once, the subscriber (which does nothing) and the discovery through call_soon, each with the address of THIS detection *)
+Theorem C07_reboot_fan_out_is_the_translated_source : forall a w,
+  reboot_detected a w = fold_left (run_ract a) gen_reboot_detected w.
+Proof. exact reboot_detected_is_the_translated_source. Qed.
+
+Print Assumptions C07_reboot_fan_out_is_the_translated_source.
 Print Assumptions C07_exact_code.
 Print Assumptions C07_exact.
 Print Assumptions C07_exact_refuted.
